@@ -87,8 +87,8 @@ class AuthzHandling(object):
         scopes = grant.scope
         if not scopes:
             scopes = request.get("scope", [])
-        else:
-            scopes = _context.scopes_handler.filter_scopes(scopes, client_id=_client_id)
+        # whichever list it is, the client gets no more than it is allowed
+        scopes = _context.scopes_handler.filter_scopes(scopes, client_id=_client_id)
         grant.scope = scopes
 
         # After this is where user consent should be handled
